@@ -70,6 +70,8 @@ class TableDomain(NormDomain):
             return a0
         if dotted == 'numpy.arange' and len(args) == 1 and self.rat(a0) is not None:
             return Law(lambda j: j, 'arange(0, %s)' % self.rat(a0).key())
+        if dotted == 'numpy.arange' and len(args) == 2 and self.rat(a0) is not None and self.rat(args[1]) is not None and self.rat(a0).is_zero():
+            return Law(lambda j: j, 'arange(0, %s)' % self.rat(args[1]).key())
         if dotted == 'builtins.range' and len(args) == 1 and self.rat(a0) is not None and isinstance(a0, Sym):
             return Law(lambda j: j, 'range(0, %s)' % self.rat(a0).key())
         if dotted == 'numpy.empty':
@@ -88,7 +90,7 @@ class TableDomain(NormDomain):
         return NormDomain.store_subscript(self, target, idx, val, node)
 
 
-def mk(db, positive=(), atoms=()):
+def mk(db, positive=(), atoms=(), seqs=('jacobi_seq', 'Qbfs_seq')):
     dom = TableDomain(positive)
     it = install_pi(Interp(db, dom))
     names = set(atoms)
@@ -96,7 +98,7 @@ def mk(db, positive=(), atoms=()):
     def call_prysm(fi, args, kwargs, node):
         if fi.name in names:
             return dom.func_atom(fi.name, list(args))
-        if fi.name in ('jacobi_seq', 'Qbfs_seq') and args and isinstance(args[0], Law):
+        if fi.name in seqs and args and isinstance(args[0], Law):
             ns, rest = args[0], list(args[1:])
             base = fi.name[:-4]
             return Law(lambda j: dom.func_atom(base, [ns.fn(j)] + rest), '%s over %s' % (fi.name, ns.label))
@@ -137,6 +139,9 @@ def table_law(db, fi, loop, dom_factory, key_name, presets, table_names):
     step, params = loop_as_function(fi, loop, [])
     it, dom = dom_factory()
     tables = {}
+    presets = dict(presets)
+    if isinstance(loop, ast.For) and isinstance(loop.target, ast.Name):
+        presets[loop.target.id] = lambda d: d.sym(key_name)          # the loop variable is the key, whatever it is called
 
     def kw():
         d = {}
@@ -168,6 +173,7 @@ def table_law(db, fi, loop, dom_factory, key_name, presets, table_names):
 
 # --------------------------------------------------------------------------
 def zernike_rules(run, db, rule='C08.table2'):
+    from ..core.pattern import match_all
     Z = P + 'zernike.'
     f = db.func(Z + 'zernike_nm_seq')
     one = db.func(Z + 'zernike_nm')
@@ -176,80 +182,107 @@ def zernike_rules(run, db, rule='C08.table2'):
         raise AnalysisError('zernike_nm_seq: expected five top-level loops (max, arange, tables, azimuthal tables, requests), found %d' % len(loops))
     Lmax, Lar, Ltab, Laz, Lmain = loops
     factory = lambda: mk(db, positive=('m', 'mm', 'k'), atoms=('jacobi',))          # zernike_norm is inlined: it depends on m only through m == 0
-    # 1. the per-|m| maximum: the body leaves T[am_] >= nj
-    stepf, params = loop_as_function(f, Lmax, [])
+    # names by role: the request list is the first parameter; everything else is read off the loop headers and stores
+    NMS = f.params[0]
+    pre = match_all(f.node, ['V_ms = [V_e[1] for V_e in %s]' % NMS, 'V_am = truenp.abs(V_ms)', 'V_amu = truenp.unique(V_am)'])
+    tg = [e.id for e in Lmax.target.elts] if isinstance(Lmax.target, ast.Tuple) and all(isinstance(e, ast.Name) for e in Lmax.target.elts) else []
+    okzip = pre is not None and len(tg) == 2 and ast.unparse(Lmax.iter).replace(' ', '') == 'zip(%s,%s)' % (NMS, pre['V_am'])
+    mx = match_all(Lmax.body, ['if V_nj > V_T[%s]:\n    V_T[%s] = V_nj' % (tg[1], tg[1])]) if len(tg) == 2 else None
+    if mx is None and len(tg) == 2:
+        mx = match_all(Lmax.body, ['V_T[%s] = max(V_T[%s], V_nj)' % (tg[1], tg[1])]) or match_all(Lmax.body, ['V_T[%s] = max(V_nj, V_T[%s])' % (tg[1], tg[1])])
+    if mx is None or not okzip:
+        run.check(False, rule, f.qual, 'per-|m| maximum', 'the table length per |m| is the maximum of (n - |m|)//2 over the requests with that |m| (request i is paired with its own |m_i|)',
+                  'the per-|m| Jacobi table length is no longer max((n-|m|)//2) over the paired requests', f.loc(Lmax))
+        return
+    TMAX, NJ = mx['V_T'], mx['V_nj']
+    # 1. the per-|m| maximum: the candidate is (n - |m_i|)//2 of request i, and the body leaves T[|m_i|] = max(old, candidate)
+    stepf, params = loop_as_function(f, Lmax, [TMAX, NJ])
     it, dom = factory()
-    T = {}
 
     def kw():
         d = {p: dom.sym(p) for p in params}
-        T['t'] = DictV()
-        T['t'].set(dom.sym('am_'), dom.sym('old'))
-        d['jacobi_seqs_mjn'] = T['t']
-        d['nm'] = Tup([dom.sym('n'), dom.sym('m0')])
+        t_ = DictV()
+        t_.set(dom.sym('am_'), dom.sym('old'))
+        d[TMAX] = t_
+        d[tg[0]] = Tup([dom.sym('n'), dom.sym('m0')])
+        d[tg[1]] = dom.sym('am_')
+        d[NJ] = Const(None)
         return d
     res = [q for q in it.run(stepf, kwargs=kw) if q.outcome == 'return']
     n_, am_ = Rat(dom.R.atom('n')), Rat(dom.R.atom('am_'))
     want_nj = dom.rat(dom.floordiv(n_ - am_, Rat(dom.R.const(2)), None))
-    okmax = len(res) == 2
-    seen = set()
+    finals = set()
+    oknj = bool(res)
     for q in res:
-        conds = [(c.replace(' ', ''), t) for c, t in q.conds]
-        # re-run to read the table of this path is not possible afterwards; the interpreter keeps the last run's heap, so analyse by conditions
-        seen.add(tuple(conds))
-    okmax = okmax and {('nj>jacobi_seqs_mjn[am_]', True), ('nj>jacobi_seqs_mjn[am_]', False)} == {c for cs in seen for c in cs}
-    body_src = [norm_stmt(st) for st in Lmax.body]
-    okmax = okmax and 'n = nm[0]' in body_src and any(s.replace(' ', '') == 'nj=(n-am_)//2' for s in body_src) \
-        and any(isinstance(st, ast.If) and [norm_stmt(x).replace(' ', '') for x in st.body] == ['jacobi_seqs_mjn[am_]=nj'] and not st.orelse for st in Lmax.body)
-    okzip = ast.unparse(Lmax.iter).replace(' ', '') == 'zip(nms,am)' and ast.unparse(Lmax.target).replace(' ', '') in ('(nm,am_)', 'nm,am_')
-    pre = {norm_stmt(st).replace(' ', '') for st in f.node.body if isinstance(st, ast.Assign)}
-    okzip = okzip and 'ms=[e[1]foreinnms]' in pre and 'am=truenp.abs(ms)' in pre
+        tbl, njv = q.value.items
+        ent = tbl.get(dom.sym('am_')) if isinstance(tbl, DictV) else None
+        finals.add(dom.rat(ent).key() if ent is not None and dom.rat(ent) is not None else '?')
+        oknj = oknj and dom.rat(njv) is not None and dom.rat(njv) == want_nj
+    okmax = oknj and finals <= {want_nj.key(), 'old'} and want_nj.key() in finals
     run.check(okmax and okzip, rule, f.qual, 'per-|m| maximum', 'the table length per |m| is the maximum of (n - |m|)//2 over the requests with that |m| (request i is paired with its own |m_i|)',
-              'the per-|m| Jacobi table length is no longer max((n-|m|)//2) over the paired requests', f.loc(Lmax))
+              'the per-|m| Jacobi table length is no longer max((n-|m|)//2) over the paired requests (candidate / resulting entries: %s)' % sorted(finals), f.loc(Lmax))
+    # the tables each loop writes
+    keyname = lambda lp: lp.target.id if isinstance(lp.target, ast.Name) else None
+    if not all(keyname(lp) for lp in (Lar, Ltab, Laz)):
+        raise AnalysisError('zernike_nm_seq: a table loop does not iterate over single keys')
+    Tar, Ttab, Taz = _store_bases(Lar, keyname(Lar)), _store_bases(Ltab, keyname(Ltab)), _store_bases(Laz, keyname(Laz))
+    if Tar != [TMAX] or len(Ttab) != 1 or len(Taz) != 3:
+        raise AnalysisError('zernike_nm_seq: expected the order table, one Jacobi table and three azimuthal/radial tables; found %s / %s / %s' % (Tar, Ttab, Taz))
+    alltabs = set(Tar) | set(Ttab) | set(Taz)
     first = True
     for lp_ in (Lar, Ltab, Laz):
-        carried = sorted(loop_carried(lp_) - {'jacobi_seqs_mjn', 'jacobi_seqs', 'powers_of_m', 'sines', 'cosines'})
-        run.check(not carried, rule, f.qual, 'table loop at `%s`' % norm_stmt(lp_)[:40], 'every table entry is computed from its own key only (no value carried from one key to the next)',
+        carried = sorted(loop_carried(lp_) - alltabs)
+        run.check(not carried, rule, f.qual, 'table loop #%d' % (1 + [Lar, Ltab, Laz].index(lp_)), 'every table entry is computed from its own key only (no value carried from one key to the next)',
                   'the table-building loop `%s` carries %s from one key to the next: an entry then depends on which OTHER azimuthal orders were requested (e.g. r**|m| built by one multiply per distinct |m| '
                   'is wrong as soon as the requested |m| have a gap)' % (norm_stmt(lp_)[:60], carried), f.loc(lp_))
         if carried:
             return
+    okkeys = ast.unparse(Lar.iter) == TMAX and ast.unparse(Ltab.iter) == TMAX and ast.unparse(Laz.iter) == pre['V_amu']
+    kctr = _slot_counter(f)
+    outs = _store_bases(Lmain, kctr)
+    mt = Lmain.target
+    if len(outs) != 1 or not (isinstance(mt, ast.Tuple) and len(mt.elts) == 2 and all(isinstance(e, ast.Name) for e in mt.elts)):
+        raise AnalysisError('zernike_nm_seq: the request loop is not `for n, m in nms` storing into one output array')
+    RN, RM, OUT = mt.elts[0].id, mt.elts[1].id, outs[0]
     for label, mk_m in (('m = 0', lambda d: Const(0)), ('m > 0', lambda d: d.sym('m')), ('m < 0', lambda d: Sym(-d.sym('mm').r))):
         for norm in (True, False):
             it, dom = factory()
             same = lambda: (it, dom)
             # 2. orders 0..max
-            _, law = table_law(db, f, Lar, same, 'k', {'jacobi_seqs_mjn': lambda d: _dict(d, 'k', d.sym('njmax'))}, ['jacobi_seqs_mjn'])
-            ar = law['jacobi_seqs_mjn']
+            _, law = table_law(db, f, Lar, same, 'k', {TMAX: lambda d: _dict(d, 'k', d.sym('njmax'))}, [TMAX])
+            ar = law[TMAX]
             # 3. the Jacobi tables; 4. azimuthal / radial tables
             snaps = snapshot_loops(it, dom)
             it.run(f, kwargs=lambda: {'nms': dom.sym('nms'), 'r': dom.sym('r'), 't': dom.sym('t'), 'norm': Const(norm)})
             dom.loop = lambda node, frame: False
-            xs = {repr(sn.env.get('x')) for sn in snaps if sn.node is Ltab}
-            if len(xs) != 1:
-                raise AnalysisError('zernike_nm_seq: the Jacobi argument x is not a single expression at the table loop: %s' % sorted(xs))
-            xval = [sn.env['x'] for sn in snaps if sn.node is Ltab][0]
-            _, law3 = table_law(db, f, Ltab, same, 'k', {'jacobi_seqs_mjn': lambda d: _dict(d, 'k', Law(lambda j: j, 'arange')), 'x': lambda d: xval}, ['jacobi_seqs'])
-            _, law4 = table_law(db, f, Laz, same, 'kk', {'m': lambda d: d.sym('kk')}, ['powers_of_m', 'sines', 'cosines'])
+            envs = [sn.env for sn in snaps if sn.node is Ltab]
+            if not envs:
+                raise AnalysisError('zernike_nm_seq: the Jacobi table loop was not reached')
+            locs = {k: v for k, v in envs[0].items() if k not in f.params and isinstance(v, Value) and dom.rat(v) is not None}
+            pres3 = {k: (lambda d, v=v: v) for k, v in locs.items()}
+            pres3[TMAX] = lambda d: _dict(d, 'k', Law(lambda j: j, 'arange'))
+            _, law3 = table_law(db, f, Ltab, same, 'k', pres3, Ttab)
+            pres4 = {k: (lambda d, v=v: v) for k, v in locs.items()}
+            _, law4 = table_law(db, f, Laz, same, 'kk', pres4, Taz)
             if first:
                 first = False
                 run.check(isinstance(ar, Law) and ar.label == 'arange(0, (1 + njmax))', rule, f.qual, 'order list', 'the Jacobi orders of table |m| are 0, 1, ..., max (contiguous from 0, so list index == order)',
                           'the per-|m| order list is %r, expected arange(max+1)' % (ar,), f.loc(Lar))
-                run.check(ast.unparse(Laz.iter) == 'amu' and 'amu=truenp.unique(am)' in pre, rule, f.qual, 'key set', 'the radial/azimuthal tables are filled for every distinct |m| requested',
+                run.check(okkeys, rule, f.qual, 'key set', 'the radial/azimuthal tables are filled for every distinct |m| requested',
                           'radial/azimuthal tables are not filled over unique(|m|)', f.loc(Laz))
             # 5. the request loop against the single-term function
             mval = mk_m(dom)
-            xv = 2 * Rat(dom.R.atom('r')) * Rat(dom.R.atom('r')) - 1
 
             def tab(entry, keyname):
                 return Law(lambda key, entry=entry: subst_value(dom, entry, keyname, key), keyname)
-            stepf, params = loop_as_function(f, Lmain, ['k'])
+            stepf, params = loop_as_function(f, Lmain, [kctr])
             kwv = {}
             for p_ in params:
-                kwv[p_] = dom.sym(p_)
-            kwv.update({'n': dom.sym('n'), 'm': mval, 'k': dom.sym('k'), 'norm': Const(norm), 'out': dom.sym('out'),
-                        'jacobi_seqs': tab(law3['jacobi_seqs'], 'k'), 'powers_of_m': tab(law4['powers_of_m'], 'kk'),
-                        'sines': tab(law4['sines'], 'kk'), 'cosines': tab(law4['cosines'], 'kk')})
+                kwv[p_] = locs.get(p_, dom.sym(p_))
+            kwv.update({RN: dom.sym('n'), RM: mval, kctr: dom.sym('k'), 'norm': Const(norm), OUT: dom.sym('out')})
+            kwv[Ttab[0]] = tab(law3[Ttab[0]], 'k')
+            for t_ in Taz:
+                kwv[t_] = tab(law4[t_], 'kk')
             dom.stores = []
             res = [q for q in it.run(stepf, kwargs=lambda: dict(kwv)) if q.outcome == 'return']
             if len(res) != 1 or len(dom.stores) != 1:
@@ -266,7 +299,7 @@ def zernike_rules(run, db, rule='C08.table2'):
             ki, ko = dom.rat(idx), dom.rat(kout)
             run.check(ki is not None and ko is not None and ki == Rat(dom.R.atom('k')) and ko == Rat(dom.R.atom('k')) + 1, rule, f.qual, 'slot %s norm=%s' % (label, norm),
                       'request i is stored in slot i (the counter advances once per request)', 'the mode is stored in slot %s and the counter becomes %s' % (ki.key() if ki is not None else '?', ko.key() if ko is not None else '?'), f.loc(node))
-    run.check(ast.unparse(Lmain.iter) == 'nms' and ast.unparse(Lmain.target).replace(' ', '') in ('(n,m)', 'n,m'), rule, f.qual, 'request order', 'requests are walked in the order given', 'the request loop no longer walks nms in order', f.loc(Lmain))
+    run.check(ast.unparse(Lmain.iter) == NMS, rule, f.qual, 'request order', 'requests are walked in the order given', 'the request loop no longer walks nms in order', f.loc(Lmain))
 
 
 def _dict(dom, keyname, value):
